@@ -94,93 +94,43 @@ func isAttrTest(cond ssa.Value) bool {
 
 var _ = fmt.Sprintf
 
-// defaultReference: the cells that reach the default clause of each kind switch on today's (hand-checked) tree.
-// A switch whose default now receives a cell outside every reference set of its function has lost a case.
-var defaultReference = map[string][]string{
-	"(model.Field).GetType":                          {"Basic/list,Basic/single,CheckSum/single,Length/single"},
-	"(parser.CppGenerator).generateDecode":           {""},
-	"(parser.CppGenerator).generateEncode":           {""},
-	"(parser.CppGenerator).generateTestValue":        {""},
-	"(parser.CppGenerator).generateToString":         {"Basic/list,DynamicString/list,FixedString/list,Object/list", "DynamicString/single,FixedString/single"},
-	"(parser.CppGenerator).getFieldType":             {"Object/list,Object/single"},
-	"(parser.GoGenerator).generateDecodingField":     {""},
-	"(parser.GoGenerator).generateDecodingListField": {""},
-	"(parser.GoGenerator).generateEncodingField":     {""},
-	"(parser.GoGenerator).generateEncodingListField": {""},
-	"(parser.GoGenerator).generateTestValue":         {""},
-	"(parser.GoGenerator).getFieldType":              {""},
-	"(parser.JavaGenerator).GenerateDecodeField":     {""},
-	"(parser.JavaGenerator).GenerateEncodeField":     {""},
-	"(parser.JavaGenerator).GetFieldType":            {""},
-	"(parser.LuaWspGenerator).decodeField":           {""},
-	"(parser.LuaWspGenerator).decodeFieldForLocal":   {"Match/single,Object/list,Object/single"},
-	"(parser.PythonGenerator).generateDecodeField":   {""},
-	"(parser.PythonGenerator).generateEncodeField":   {""},
-	"(parser.PythonGenerator).generateEncodeMethod":  {"Basic/list,Basic/single,DynamicString/list,DynamicString/single,FixedString/list,FixedString/single,Match/single,Object/list,Object/single"},
-	"(parser.PythonGenerator).generateInitMethod":    {"Match/single,Object/single"},
-	"(parser.RustGenerator).DecodeField":             {"Basic/list", "Basic/single,CheckSum/single,Length/single"},
-	"(parser.RustGenerator).EncodeField":             {"Basic/list,Basic/single,DynamicString/list,DynamicString/single,FixedString/list,FixedString/single,Match/single,Object/list,Object/single", "Basic/list", "Basic/single"},
-	"(parser.RustGenerator).GetFieldType":            {"Basic/list,Basic/single,CheckSum/single,Length/single,Object/list,Object/single"},
-	"(parser.RustGenerator).testValueSingle":         {"Basic/single,CheckSum/single,DynamicString/single"},
-}
-
-func kindExhaustiveness(m *matrix, r *Report, rule string, only func(fn *ssa.Function) bool) {
+// c07EveryKind: every grammatical field kind x repeat cell has at least one kind-specific emission site in each language's
+// encode and decode emitters (a cell without one is a field that is silently dropped).
+func c07EveryKind(wc *wireCtx, r *Report) {
+	const rule = "C07/every-kind-emitted"
 	n := 0
-	for _, fn := range m.funcs {
-		if only != nil && !only(fn) {
-			continue
-		}
-		refs, ok := defaultReference[fnKey(fn)]
-		if !ok {
-			continue
-		}
-		cur := defaultKinds(m, fn)
-		for _, sw := range sortedKeys(cur) {
-			n++
-			cells := cur[sw]
-			key := fmt.Sprintf("%s %s: no new field kind falls through to the default clause", fnKey(fn), sw)
-			okSet := false
-			var extra []string
-			for _, ref := range refs {
-				refSet := map[string]bool{}
-				for _, c := range strings.Split(ref, ",") {
-					refSet[c] = true
+	for _, ga := range anchorTable {
+		for _, dir := range []string{"enc", "dec"} {
+			seen := map[string]bool{}
+			for _, c := range wc.cells[ga.Lang+"/"+dir] {
+				if c.u.Target {
+					continue
 				}
-				var ex []string
-				for _, c := range strings.Split(cells, ",") {
-					if c != "" && !refSet[c] {
-						ex = append(ex, c)
-					}
+				k := fmt.Sprintf("%s/%s/%s has an emission site", ga.Lang, dir, c.u)
+				if seen[k] {
+					continue
 				}
-				if len(ex) == 0 {
-					okSet = true
-					break
-				}
-				if extra == nil || len(ex) < len(extra) {
-					extra = ex
+				seen[k] = true
+				n++
+				if c.sites > 0 {
+					r.pass(rule, k, "", fmt.Sprintf("%d sites", c.sites))
+				} else {
+					r.fail(rule, k, "", "no kind-specific emission site of the "+ga.Lang+" "+dir+" emitters can execute for this field kind: the declared field gets no "+dir+" step")
 				}
 			}
-			if okSet {
-				r.pass(rule, key, m.w.pos(fn.Pos()), "default receives {"+cells+"}")
-			} else {
-				r.fail(rule, key, m.w.pos(fn.Pos()), fmt.Sprintf("field kind(s) %s now reach the default clause of this emitter's kind switch (on the checked tree they had their own case): the construct is emitted as placeholder text or dropped instead of being generated or diagnosed", strings.Join(extra, ", ")))
-			}
-		}
-		if len(cur) == 0 {
-			r.fail(rule, fnKey(fn)+": kind switch present", m.w.pos(fn.Pos()), "the kind switch recorded for this emitter is gone (anchor lost)")
 		}
 	}
-	if n < 10 {
-		r.fail(rule, "kind switches found", "", fmt.Sprintf("expected >= 10 kind switches in the reference functions, found %d", n))
+	if n < 100 {
+		r.fail(rule, "cells found", "", fmt.Sprintf("expected >= 100 language x direction x kind cells, found %d", n))
 	}
 }
 
 func init() {
-	register("C07", "Completeness conditions visible in the generators' shape: (kinds) in every emitter with a switch over the field kind, no feasible kind x repeat cell reaches the default clause beyond those checked by hand on the reference tree - a lost case means placeholder text or a dropped field; (tables) every grammatical scalar type has a row in each language's scalar table (a miss emits nothing); "+
+	register("C07", "Completeness conditions visible in the generators' shape: (kinds) every grammatical field kind x repeat cell has a kind-specific emission site in each language's encode and decode emitters; (tables) every grammatical scalar type has a row in each language's scalar table (a miss emits nothing); "+
 		"(packets) each generator emits for every packet (plain range over the packet list/map, only the root-first skip) and recurses into inline objects; (byte-order columns) little-endian method names come from the table's Le column; (variants) Rust emits one enum variant / encode arm per packet; (diagnostics) a generator error reaches cmd.Compile's error result. "+
 		"Whether emitted files parse and type-check in their languages needs the five toolchains and is NOT decided.", func(w *World, r *Report) {
 		wc := buildWire(w, r)
-		kindExhaustiveness(wc.m, r, "C07/kind-exhaustive", nil)
+		c07EveryKind(wc, r)
 		wireTables(w, r, "C07")
 		wireLEColumn(wc, r, "C07", "enc")
 		wireLEColumn(wc, r, "C07", "dec")
@@ -189,60 +139,14 @@ func init() {
 		c07Diagnostics(w, r)
 		wireAssumptions(r)
 	})
-	register("C17", "Necessary conditions on the emitted self-tests, visible in the sample/test emitters: no field kind falls through to the default of a sample-value switch beyond the hand-checked reference; every scalar table row has a non-empty sample value; every generator emits a test for every packet; the Rust and C++ test emitters copy back the fields their encoders overwrite (length and checksum) before comparing. "+
+	register("C17", "Necessary conditions on the emitted self-tests, visible in the sample/test emitters: every scalar table row has a non-empty sample value; every generator emits a test for every packet; the Rust and C++ test emitters copy back the fields their encoders overwrite (length and checksum) before comparing. "+
 		"Whether the emitted tests build and pass is a runtime fact about five toolchains and is NOT decided (the core of C17).", func(w *World, r *Report) {
 		wc := buildWire(w, r)
-		testFns := map[*ssa.Function]bool{}
-		for _, l := range codecLangs {
-			for _, f := range wc.anchors[l]["test"] {
-				testFns[f] = true
-			}
-		}
-		kindExhaustivenessTests(wc.m, r, testFns)
 		c17Samples(w, r)
 		c17Coverage(w, wc, r)
 		c17CopyBack(w, wc, r)
 		wireAssumptions(r)
 	})
-}
-
-func kindExhaustivenessTests(m *matrix, r *Report, fns map[*ssa.Function]bool) {
-	const rule = "C17/sample-kind-exhaustive"
-	n := 0
-	for _, fn := range sortedFuncs(fns) {
-		refs, ok := defaultReference[fnKey(fn)]
-		if !ok {
-			continue
-		}
-		for sw, cells := range defaultKinds(m, fn) {
-			n++
-			key := fmt.Sprintf("%s %s", fnKey(fn), sw)
-			okSet := false
-			for _, ref := range refs {
-				refSet := map[string]bool{}
-				for _, c := range strings.Split(ref, ",") {
-					refSet[c] = true
-				}
-				all := true
-				for _, c := range strings.Split(cells, ",") {
-					if c != "" && !refSet[c] {
-						all = false
-					}
-				}
-				if all {
-					okSet = true
-				}
-			}
-			if okSet {
-				r.pass(rule, key, m.w.pos(fn.Pos()), "default receives {"+cells+"}")
-			} else {
-				r.fail(rule, key, m.w.pos(fn.Pos()), "a field kind that had its own sample-value case now reaches the default clause ({"+cells+"}): the emitted test contains placeholder text / an empty sample")
-			}
-		}
-	}
-	if n < 3 {
-		r.fail(rule, "sample-value switches found", "", fmt.Sprintf("expected >= 3, found %d", n))
-	}
 }
 
 // c07Packets: per generator, a range over Packets/PacketsMap that reaches the per-packet emitter on every iteration except root-first skips; inline objects are recursed into.
@@ -394,17 +298,7 @@ func c07Packets(w *World, wc *wireCtx, r *Report) {
 					}
 					if f := c.Common().StaticCallee(); f != nil && recvNamedCore(f) == g.Type {
 						// a code emitter, not a sample-value builder
-						isTest := false
-						for _, ga := range anchorTable {
-							if ga.Lang == g.Lang {
-								for _, tn := range ga.Test {
-									if f.Name() == tn {
-										isTest = true
-									}
-								}
-							}
-						}
-						if !isTest {
+						if roleOf(f) != "test" {
 							handled = true
 							pos = w.instrPos(ins)
 						}
@@ -423,19 +317,35 @@ func c07Packets(w *World, wc *wireCtx, r *Report) {
 
 func c07Variants(w *World, wc *wireCtx, r *Report) {
 	const rule = "C07/rust-variants"
-	for _, name := range []string{"generateMatchFieldEnumCode", "EncoderMatchField"} {
-		fn := lookupFunc(w.Parser, "RustGenerator", name)
-		if fn == nil {
-			r.fatal("anchor unresolved: (RustGenerator).%s", name)
+	n := 0
+	for _, fn := range wc.anchors["rust"]["own"] {
+		if roleOf(fn) == "test" {
 			continue
 		}
+		var usesKey, usesVal bool
+		for _, st := range wc.m.sitesOf(fn) {
+			d, _ := wc.m.siteDeps(st, nil)
+			if d&sPK != 0 {
+				usesKey = true
+			}
+			if d&sPV != 0 {
+				usesVal = true
+			}
+		}
+		if !usesVal || usesKey {
+			continue
+		}
+		n++
 		keys := dedupKeys(w, fn, 0, map[*ssa.Function]bool{})
-		key := "rust: " + name + " emits one entry per packet"
+		key := "rust: " + fnKey(fn) + " emits one entry per packet"
 		if keys["Value"] && len(keys) == 1 {
 			r.pass(rule, key, w.pos(fn.Pos()), "pairs de-duplicated by MatchPair.Value")
 		} else {
-			r.fail(rule, key, w.pos(fn.Pos()), fmt.Sprintf("pairs are de-duplicated by %v instead of by packet: two keys mapping to one packet emit a repeated enum variant / match arm, which rustc rejects", sortedBoolKeys(keys)))
+			r.fail(rule, key, w.pos(fn.Pos()), fmt.Sprintf("per-packet text is emitted for every pair, de-duplicated by %v instead of by packet: two keys mapping to one packet emit a repeated enum variant / match arm, which rustc rejects", sortedBoolKeys(keys)))
 		}
+	}
+	if n == 0 {
+		r.fail(rule, "rust per-packet emitters found", "", "no Rust emitter that emits per-packet text from match pairs found")
 	}
 }
 
@@ -525,100 +435,112 @@ func c17Samples(w *World, r *Report) {
 	}
 }
 
-func c17Coverage(w *World, wc *wireCtx, r *Report) {
-	const rule = "C17/test-per-packet"
-	// each codec generator has a function ranging over Packets/PacketsMap that calls a test emitter
-	testEntry := map[string][]string{"go": {"generateGoTestFileForPacket"}, "rust": {"generateUnitTestCode"}, "java": {"GenerateJavaTestClassFileForPacket"}, "python": {"generateTestCodeForPacket"}, "cpp": {"generateUnitestForPacket"}}
-	recv := map[string]string{}
-	for _, g := range generators {
-		recv[g.Lang] = g.Type
-	}
-	cg := w.CallGraph()
-	for _, l := range codecLangs {
-		for _, name := range testEntry[l] {
-			fn := lookupFunc(w.Parser, recv[l], name)
-			if fn == nil {
-				r.fatal("anchor unresolved: (%s).%s", recv[l], name)
-				continue
-			}
-			// some caller invokes it inside a loop over the packet list/map
-			inLoop := false
-			if n := cg.Nodes[fn]; n != nil {
-				for _, e := range n.In {
-					if e.Site == nil || e.Caller.Func.Synthetic != "" {
-						continue
-					}
-					caller := e.Caller.Func
-					for _, b := range caller.Blocks {
-						if b.Comment == "rangeindex.loop" || b.Comment == "rangeiter.loop" {
-							if naturalLoop(b)[e.Site.Block()] {
-								inLoop = true
-							}
-						}
-					}
-					// rust: generateStructCode -> generateUnitTestCode per packet, itself called per packet
-					if !inLoop {
-						if n2 := cg.Nodes[caller]; n2 != nil {
-							for _, e2 := range n2.In {
-								if e2.Site == nil {
-									continue
-								}
-								for _, b := range e2.Caller.Func.Blocks {
-									if (b.Comment == "rangeindex.loop" || b.Comment == "rangeiter.loop") && naturalLoop(b)[e2.Site.Block()] {
-										inLoop = true
-									}
-								}
-								if n3 := cg.Nodes[e2.Caller.Func]; n3 != nil && !inLoop {
-									for _, e3 := range n3.In {
-										if e3.Site == nil {
-											continue
-										}
-										for _, b := range e3.Caller.Func.Blocks {
-											if (b.Comment == "rangeindex.loop" || b.Comment == "rangeiter.loop") && naturalLoop(b)[e3.Site.Block()] {
-												inLoop = true
-											}
-										}
-									}
-								}
+// packetLoops: loops in fn that range over BinaryModel.Packets or BinaryModel.PacketsMap (header block -> loop blocks).
+func packetLoops(fn *ssa.Function) []map[*ssa.BasicBlock]bool {
+	var out []map[*ssa.BasicBlock]bool
+	forEachInstr(fn, func(b *ssa.BasicBlock, ins ssa.Instruction) {
+		switch x := ins.(type) {
+		case *ssa.Range:
+			if ld, ok := x.X.(*ssa.UnOp); ok {
+				if fa, ok := ld.X.(*ssa.FieldAddr); ok {
+					if tn, f, _, _ := fieldOf(fa); tn == "BinaryModel" && f == "PacketsMap" {
+						for _, ref := range *x.Referrers() {
+							if nx, ok := ref.(*ssa.Next); ok {
+								out = append(out, naturalLoop(nx.Block()))
 							}
 						}
 					}
 				}
 			}
-			key := fmt.Sprintf("%s: a test is emitted for every packet (%s)", l, name)
-			if inLoop {
-				r.pass(rule, key, w.pos(fn.Pos()), "")
-			} else {
-				r.fail(rule, key, w.pos(fn.Pos()), "the test emitter is not called from a loop over the packets")
+		case *ssa.IndexAddr:
+			if ld, ok := x.X.(*ssa.UnOp); ok {
+				if fa, ok := ld.X.(*ssa.FieldAddr); ok {
+					if tn, f, _, _ := fieldOf(fa); tn == "BinaryModel" && f == "Packets" {
+						if bo, ok := x.Index.(*ssa.BinOp); ok {
+							if phi, ok := bo.X.(*ssa.Phi); ok && phi.Comment == "rangeindex" {
+								out = append(out, naturalLoop(phi.Block()))
+							}
+						}
+					}
+				}
 			}
+		}
+	})
+	return out
+}
+
+func c17Coverage(w *World, wc *wireCtx, r *Report) {
+	const rule = "C17/test-per-packet"
+	// each codec generator has a loop over the packets that (transitively) reaches a test emitter
+	for _, l := range codecLangs {
+		found := false
+		pos := ""
+		for _, fn := range wc.anchors[l]["own"] {
+			for _, loop := range packetLoops(fn) {
+				seen := map[*ssa.Function]bool{}
+				var reach func(f *ssa.Function, blocks map[*ssa.BasicBlock]bool, depth int) bool
+				reach = func(f *ssa.Function, blocks map[*ssa.BasicBlock]bool, depth int) bool {
+					if depth > 4 {
+						return false
+					}
+					hit := false
+					forEachInstr(f, func(b *ssa.BasicBlock, ins ssa.Instruction) {
+						if hit || (blocks != nil && !blocks[b]) {
+							return
+						}
+						c, ok := ins.(ssa.CallInstruction)
+						if !ok {
+							return
+						}
+						g := c.Common().StaticCallee()
+						if g == nil || !w.isSubjectFunc(g) || seen[g] {
+							return
+						}
+						seen[g] = true
+						if roleOf(g) == "test" || reach(g, nil, depth+1) {
+							hit = true
+						}
+					})
+					return hit
+				}
+				if reach(fn, loop, 0) {
+					found = true
+					pos = w.pos(fn.Pos())
+				}
+			}
+		}
+		key := l + ": a test is emitted for every packet"
+		if found {
+			r.pass(rule, key, pos, "")
+		} else {
+			r.fail(rule, key, pos, "no loop over the packet list/map under this generator reaches a test emitter")
 		}
 	}
 }
 
 func c17CopyBack(w *World, wc *wireCtx, r *Report) {
 	const rule = "C17/copy-back"
-	for _, e := range []struct{ lang, recv, fn string }{{"rust", "RustGenerator", "generateUnitTestCode"}, {"cpp", "CppGenerator", "generateUnitestForPacket"}} {
-		fn := lookupFunc(w.Parser, e.recv, e.fn)
-		if fn == nil {
-			r.fatal("anchor unresolved: (%s).%s", e.recv, e.fn)
-			continue
-		}
+	for _, lang := range []string{"rust", "cpp"} {
 		covered := uint8(0)
-		for _, s := range wc.m.sitesOf(fn) {
-			st, f := wc.m.stateAt(fn, s.instr.Block())
-			if f == nil || st.isTop() {
-				continue
-			}
-			if st.K&^(1<<kLength|1<<kCheckSum) == 0 {
-				covered |= st.K
+		pos := ""
+		for _, fn := range wc.anchors[lang]["test"] {
+			for _, s := range wc.m.sitesOf(fn) {
+				st, f := wc.m.stateAt(fn, s.instr.Block())
+				if f == nil || st.isTop() {
+					continue
+				}
+				if st.K&^(1<<kLength|1<<kCheckSum) == 0 {
+					covered |= st.K
+					pos = w.pos(fn.Pos())
+				}
 			}
 		}
 		for _, k := range []int{kLength, kCheckSum} {
-			key := fmt.Sprintf("%s: the test copies the %s field back from the decoded message before comparing", e.lang, kindNames[k])
+			key := fmt.Sprintf("%s: the test copies the %s field back from the decoded message before comparing", lang, kindNames[k])
 			if covered&(1<<k) != 0 {
-				r.pass(rule, key, w.pos(fn.Pos()), "")
+				r.pass(rule, key, pos, "")
 			} else {
-				r.fail(rule, key, w.pos(fn.Pos()), "the encoder overwrites this field (const/by-value encoder), the emitted test compares the original with the decoded message without copying it back: the test fails for every packet with such a field")
+				r.fail(rule, key, pos, "the encoder overwrites this field (const/by-value encoder), the emitted test compares the original with the decoded message without copying it back: the test fails for every packet with such a field")
 			}
 		}
 	}
